@@ -6,11 +6,37 @@ From Coq Require Import String.
 From Coq Require Import List Bool Arith NArith ZArith.
 Import ListNotations.
 Require Import Str IpText JunModel JunProofs G_rx G_text_consts TextModel TextProofs TextProofs2 Findings EncProofs.
-Require PyLib G_fn_sir RefEncl.
+Require PyLib G_fn_sir G_fn_sir2 RefEncl RefJun RefValue TotalProofs.
 
 Theorem C09_generated_extract_enclosing_text_is_the_model : forall (py_call : PyLib.pyval -> PyLib.pyval -> PyLib.res) (in_val head tail : str),
   G_fn_sir.gen__extract_enclosing_text py_call (S (length in_val)) (RefEncl.vstr in_val) (RefEncl.vstr head) (RefEncl.vstr tail)
   = (let '(h, v, t) := extract_enclosing in_val head tail in PyLib.Normal (PyLib.VTuple [RefEncl.vstr h; RefEncl.vstr v; RefEncl.vstr t])).
 Proof. exact RefEncl.gen_extract_enclosing_refines. Qed.
 
+(* ... for any sufficient fuel, which is how _anonymize_value calls it *)
+Theorem C09_generated_extract_enclosing_text_is_the_model_for_any_fuel : forall (py_call : PyLib.pyval -> PyLib.pyval -> PyLib.res) (fuel : nat) (in_val head tail : str),
+  (length in_val < fuel)%nat ->
+  G_fn_sir.gen__extract_enclosing_text py_call fuel (RefEncl.vstr in_val) (RefEncl.vstr head) (RefEncl.vstr tail)
+  = (let '(h, v, t) := extract_enclosing in_val head tail in PyLib.Normal (PyLib.VTuple [RefEncl.vstr h; RefEncl.vstr v; RefEncl.vstr t])).
+Proof. exact RefEncl.gen_extract_enclosing_refines_fuel. Qed.
+
+(* the translated _anonymize_value (refined to the model in refine/RefValue.v, premises as in C08G) returns the raw value itself or the enclosing text
+   with a replacement in between -- "quotes, brackets and terminators around the secret are kept in place", on the translated code *)
+Theorem C09_generated_anonymize_value_keeps_the_enclosing_text :
+  forall (pc : PyLib.pyval -> PyLib.pyval -> PyLib.res) (orc : oracle), RefValue.passlib_answers_as_the_model pc orc ->
+  forall (fuel : nat) (raw : str) (lookup : lookup_t) (reserved : list str) (salt out : str) (lookup' : lookup_t),
+  (length raw < fuel)%nat -> TotalProofs.table_bytes lookup -> RefValue.keys_unique lookup ->
+  (forall c, JunModel.encrypt (TotalProofs.anon0_of lookup) salt = JOk c -> (length c < fuel)%nat) ->
+  anonymize_value orc raw lookup reserved salt = Done (out, lookup') ->
+  G_fn_sir2.gen__anonymize_value pc fuel (RefJun.vstr raw) (RefValue.vlook lookup) (RefValue.vres reserved) (RefJun.vstr salt)
+    = PyLib.Normal (PyLib.VTuple [RefJun.vstr out; RefValue.vlook lookup'])
+  /\ (out = raw \/ exists repl, out = (fst (fst (extract_enclosing raw [] [])) ++ repl ++ snd (extract_enclosing raw [] []))%list).
+Proof.
+  intros pc orc Hp fuel raw lookup reserved salt out lookup' H1 H2 H3 H4 E. split.
+  - exact (RefValue.gen_anonymize_value_is_the_model pc orc Hp fuel raw lookup reserved salt out lookup' H1 H2 H3 H4 E).
+  - exact (anonymize_value_keeps_enclosing_text orc raw lookup reserved salt out lookup' E).
+Qed.
+
 Print Assumptions C09_generated_extract_enclosing_text_is_the_model.
+Print Assumptions C09_generated_extract_enclosing_text_is_the_model_for_any_fuel.
+Print Assumptions C09_generated_anonymize_value_keeps_the_enclosing_text.
